@@ -200,7 +200,8 @@ func ReadInputWithFallback(args []string) (*InputResult, error) {
 // When stdin is a TTY (interactive terminal), returns false to avoid blocking.
 func ShouldReadFromStdin(args []string) bool {
 	// Explicit stdin marker — only honor if stdin is actually piped
-	if len(args) > 0 && args[0] == "-" {
+	// (alone: "-" followed by file names is not a request to ignore the files)
+	if len(args) == 1 && args[0] == "-" {
 		return IsStdinPipe()
 	}
 
